@@ -29,3 +29,4 @@ for kind, conn in (("udp", UDPC), ("tcp", TCPC)):
         mk(f"{kind}_{k}_c3", kind, ka, 1, 3, 1, "FaultsAssume", '{"ok"}', 0, "{0, 1, 4}", "{0}", "TRUE")
         # the code as found (reproduces the defects listed in DESIGN.md section 7)
         mk(f"{kind}_{k}_asfound", kind, ka, 1, 1, 2, "FaultsFull", conn, 1, "{0}", "{0, 2}", "FALSE", fx="FxNone")
+        mk(f"{kind}_{k}_nofixF", kind, ka, 1, 1, 2, "FaultsFull", conn, 1, "{0}", "{0, 2}", "FALSE", fx="FxNoF")
